@@ -51,11 +51,16 @@ func covers(w Watermark, kind string, e *Entry) bool {
 
 // ledgerCovered checks that an export covers every signature released so far.
 func ledgerCovered(rc *RunCtx, l *Ledger, ex map[string]Watermark, when string, step int) {
+	ledgerCoveredAs(rc, "C03", "released-signature-not-recorded", l, ex, when, step)
+}
+
+// ledgerCoveredAs: every signature in the ledger is covered by the store's record of its key; reported under prop/vkey.
+func ledgerCoveredAs(rc *RunCtx, prop, vkey string, l *Ledger, ex map[string]Watermark, when string, step int) {
 	for key, atts := range l.Atts {
 		w, ok := ex[key]
 		for _, a := range atts {
 			if !ok || w.Tgt < 0 || uint64(w.Tgt) < a.Tgt || w.Src < 0 || uint64(w.Src) < a.Src {
-				rc.Violate("C03", "released-signature-not-recorded", fmt.Sprintf("%s: key %s released attestation (%d>%d) at step %d but the store says %v", when, key, a.Src, a.Tgt, a.Step, w), step)
+				rc.Violate(prop, vkey, fmt.Sprintf("%s: key %s released attestation (%d>%d) at step %d but the store says %v", when, key, a.Src, a.Tgt, a.Step, w), step)
 				return
 			}
 		}
@@ -64,7 +69,7 @@ func ledgerCovered(rc *RunCtx, l *Ledger, ex map[string]Watermark, when string, 
 		w, ok := ex[key]
 		for _, p := range props {
 			if !ok || w.Slot < 0 || uint64(w.Slot) < p.Slot {
-				rc.Violate("C03", "released-signature-not-recorded", fmt.Sprintf("%s: key %s released proposal at slot %d at step %d but the store says %v", when, key, p.Slot, p.Step, w), step)
+				rc.Violate(prop, vkey, fmt.Sprintf("%s: key %s released proposal at slot %d at step %d but the store says %v", when, key, p.Slot, p.Step, w), step)
 				return
 			}
 		}
@@ -328,7 +333,8 @@ func (c *crashWorld) crash(s *Sched, storeThread *Park, variant int) bool {
 	cfg := old.Cfg
 	cfg.Dir = img
 	c.incarnation++
-	inst, err := NewInstance(s, fmt.Sprintf("i%d", c.incarnation), cfg)
+	cfg.PeriodicPruning = c.pruning
+	inst, err := BootInstance(s, fmt.Sprintf("i%d", c.incarnation), cfg)
 	if err != nil {
 		// Dirk refuses to start (e.g. badger rejects a torn tail because truncation is off): it signs
 		// nothing, which is safe.  The run ends here.
@@ -418,11 +424,13 @@ func runCrash(t *testing.T, rc *RunCtx) {
 	}
 	c.concWorld = newW1(t, rc, cfg, nil)
 	defer func() {
+		c.s.AbortBackground(nil)
 		if c.inst != nil {
 			c.inst.Close()
 		}
 		c.s.Close()
 	}()
+	c.pruning = ch.Pick(2, 0) == 1
 	c.attach(c.inst)
 	// Reported, not asserted: how durability is achieved (an engine option, explicit syncs) is the
 	// implementation's choice; the power-loss layer decides the property behaviourally.
